@@ -102,6 +102,16 @@ impl Decoder for ZmqCodec {
                     self.state = DecoderState::FrameHeader;
                     self.waiting_for = 1;
                     if frame.command {
+                        if self.buffered_message.is_some() {
+                            // The frames of a message are not interleaved with anything
+                            // else. Keeping the unfinished message around would glue its
+                            // frames to the front of the peer's next message (and let a
+                            // handshake that starts with a message frame pass as one
+                            // that starts with READY).
+                            return Err(CodecError::Decode(
+                                "Command frame inside a multipart message",
+                            ));
+                        }
                         return Ok(Some(Message::Command(ZmqCommand::try_from(data.freeze())?)));
                     }
 
